@@ -41,7 +41,7 @@ def gen_cases(tier: str, seed: int) -> list[dict]:
     return [{"seed": f"{seed}:C18:{i}", "part": ["elasticities", "response", "mc"][i % 3]} for i in range(n)]
 
 
-def gen_net(rng) -> dict:  # noqa: ANN001
+def gen_net(rng, ia_start: bool = False) -> dict:  # noqa: ANN001
     a = rng.choice([0.5, 1.0, 2.0])
     b = rng.choice([0.5, 1.0, 2.0])
     inhib = rng.random() < 0.4
@@ -51,7 +51,14 @@ def gen_net(rng) -> dict:  # noqa: ANN001
         comps.append({"kind": "parameter", "name": "ni", "value": -1.0})
         p["ni"] = -1.0
     y0 = {"x": round(rng.uniform(0.5, 2.0), 3), "y": round(rng.uniform(0.5, 2.0), 3)}
-    comps += [{"kind": "variable", "name": v, "value": y0[v]} for v in ("x", "y")]
+    if ia_start:
+        # y(0) := mul2(k1, kin): the default state then depends on parameters that the routines displace; an elasticity is still
+        # the partial derivative at the state as it is before anything is displaced
+        y0["y"] = fl.mul2(p["k1"], p["kin"])
+        comps.append({"kind": "variable", "name": "x", "value": y0["x"]})
+        comps.append({"kind": "variable", "name": "y", "ia": {"fn": fl.ref(fl.mul2), "args": ["k1", "kin"]}})
+    else:
+        comps += [{"kind": "variable", "name": v, "value": y0[v]} for v in ("x", "y")]
     comps.append({"kind": "reaction", "name": "vin", "fn": fl.ref(fl.pl0), "args": ["kin"], "stoich": {"x": 1}})
     if inhib:
         comps.append({"kind": "reaction", "name": "v1", "fn": fl.ref(fl.pl2), "args": ["k1", "x", "a", "y", "ni"], "stoich": {"x": -1, "y": 1}})
@@ -154,11 +161,12 @@ def run_case(case: dict) -> dict:
 
     rng = core.rng_for(case["seed"])
     moiety = case["part"] == "response" and rng.random() < 0.4
-    net = gen_moiety(rng) if moiety else gen_net(rng)
+    ia_start = case["part"] == "elasticities" and rng.random() < 0.4
+    net = gen_moiety(rng) if moiety else gen_net(rng, ia_start)
     model = rm.build(net["spec"])
     p, inhib = net["params"], net.get("inhib", False)
     viols: list[dict] = []
-    counters: dict[str, int] = {f"part:{case['part']}": 1}
+    counters: dict[str, int] = {f"part:{case['part']}": 1, "default_state_defined_by_an_initial_assignment_on_scanned_parameters": int(ia_start)}
     ctx = {"params": p, "y0": net["y0"], "inhibition": inhib}
     before = snapshot(model)
 
